@@ -5,7 +5,10 @@ FUNCTIONS = ['uxarray.io._mpas._replace_padding',
     'uxarray.io._mpas._replace_zeros',
     'uxarray.io._mpas._to_zero_index',
     'uxarray.grid.connectivity._replace_fill_values',
-    'uxarray.io._topology._process_connectivity']
+    'uxarray.io._topology._process_connectivity',
+    'uxarray.io._mpas._parse_face_faces@primal',
+    'uxarray.io._mpas._parse_node_faces@primal',
+    'uxarray.io._mpas._parse_node_faces@dual']
 STANDINS = ["readers"]
 ASSUMPTIONS = []
 EXPLANATION = ""
